@@ -33,7 +33,8 @@ def file_case(draw):
 
 
 FILES = ["a.chai", "b.chai", "c.chai", "d.chai"]
-DIRS = ["d0/", "d1/", "d2/"]
+DIRS = ["d0/", "d1/", "d2/", "d0/in/"]        # one use path extends another: "in/a.chai" under d0/ and "a.chai" under d0/in/ are the same file
+NAMES = FILES + ["missing.chai", "in/a.chai", "in/b.chai"]
 BODIES = ["rec(\"{n}\")", "rec(\"{n}\"); use(\"b.chai\")", "rec(\"{n}\"); use(\"c.chai\"); rec(\"{n}-after\")", "rec(\"{n}\"); use(\"missing.chai\")",
           "rec(\"{n}\"); throw(3)", "rec(\"{n}\"); use(\"d.chai\")", "rec(\"{n}\"); eval_file(\"c.chai\")", "1 +"]
 
@@ -46,7 +47,7 @@ def history_case(draw):
         for f in FILES:
             if draw(st.integers(0, 2)) == 0:
                 layout[d + f] = draw(st.integers(0, len(BODIES) - 1))
-    ops = draw(st.lists(st.tuples(st.sampled_from(["use", "use", "use_script", "eval_file", "eval_file_script"]), st.sampled_from(FILES + ["missing.chai"]),
+    ops = draw(st.lists(st.tuples(st.sampled_from(["use", "use", "use_script", "eval_file", "eval_file_script"]), st.sampled_from(NAMES),
                                   st.sampled_from(DIRS)), min_size=1, max_size=8))
     return {"kind": "history", "paths": paths, "layout": layout, "ops": [list(o) for o in ops]}
 
